@@ -65,6 +65,29 @@ impl OrderBookSide {
         self.vol += vol;
     }
 
+    /// Key under which a new order should be queued
+    ///
+    /// Keys must be unique, so if the time of the key is
+    /// not later than the time of the last order queued at
+    /// the same price the time of the key is moved just
+    /// behind it, i.e. the order queues behind every order
+    /// already at that price.
+    ///
+    /// # Arguments
+    ///
+    /// - `key` - Key of the order
+    ///
+    fn queue_key(&self, key: OrderKey) -> OrderKey {
+        let last = self
+            .orders
+            .range((key.1, Nanos::MIN)..=(key.1, Nanos::MAX))
+            .next_back();
+        match last {
+            Some(((_, t), _)) if *t >= key.2 => (key.0, key.1, t + 1),
+            _ => key,
+        }
+    }
+
     /// Remove an order and update volume tracking
     ///
     /// # Arguments
@@ -150,6 +173,22 @@ pub struct BidSide(OrderBookSide);
 /// Ask-side specific functionality
 #[derive(Default)]
 pub struct AskSide(OrderBookSide);
+
+impl BidSide {
+    /// Key under which a new order should be queued, see
+    /// [OrderBookSide::queue_key]
+    pub fn queue_key(&self, key: OrderKey) -> OrderKey {
+        self.0.queue_key(key)
+    }
+}
+
+impl AskSide {
+    /// Key under which a new order should be queued, see
+    /// [OrderBookSide::queue_key]
+    pub fn queue_key(&self, key: OrderKey) -> OrderKey {
+        self.0.queue_key(key)
+    }
+}
 
 impl SideFunctionality for BidSide {
     /// Initialise a new empty bid-side
